@@ -15,12 +15,14 @@ REFUTED = [
     "C04_no_stale_entry_refuted (a renamed data set keeps its row under the old label; after re-open + hole removal the row stays with a dead Object ID)",
     "C04_keys_match_names_refuted (renaming a data set leaves the old 'Property:<name>' key)",
     "C04_remove_never_fails_refuted (removing a renamed data set raises KeyError)",
+    "C04_append_stored_refuted (an int32 data set sharing its name with float data is kept as float32 on file: 16777217 -> 16777216)",
 ]
 PARTIAL = [
     "C04_rows_live_partial, C04_records_exact_partial, C04_api_isolation_partial, C04_api_isolation_same_hole_partial, "
-    "C04_api_table_view_partial, C04_api_read_your_write_add_partial: proved for every history WITHOUT RENAME (the exact side "
-    "condition: the three refutations show one rename breaks each of them); C04_api_read_your_write_set, C04_api_tiled, "
+    "C04_api_table_view_partial, C04_api_read_your_write_add_partial: proved for every history WITHOUT RENAME (a sufficient side "
+    "condition, not a necessary one: the three refutations show that a rename can break each of them); C04_api_read_your_write_set, C04_api_tiled, "
     "C04_records_unique and the index-level theorems hold for all histories",
+    "C04_append_stored_partial: what is written to the file denotes the values appended, for |integer|, |float| <= 2^24 (hypothesis)",
 ]
 TRUSTED = [
     "Coq 8.16.1 kernel + vm_compute (correspondence evaluation); no axioms (Print Assumptions: closed)",
@@ -37,7 +39,9 @@ TRUSTED = [
     "never changes a value); the tie is the correspondence on text, int32 and half-valued float inputs",
 ]
 ASSUMPTIONS = [
-    "values are small integers or halves (exact as float32), lower-case words for text data, or no-data (NaN / '')",
+    "values are integers or halves with |v| <= 2^24 (exact as float32; the model's domain, hypothesis of C04_append_stored_partial), never "
+    "equal to the no-data value 1.17549435e-38, lower-case words for text data, or no-data (NaN / ''); cases with larger values are "
+    "oracle-only",
     "one value kind per data name: d0, d1 floats, d2 text, d3 int32 or float as handed in by each hole",
     "depth tables only (no from-to intervals); property groups are addressed by name; depth arrays of different groups of one hole "
     "lie on disjoint integer ranges (so collocation matching only ever matches a group with itself or two empty depth arrays)",
@@ -57,7 +61,7 @@ LEVEL_TEXT = (
     "rows tile the array exactly, no call can fail, the unsigned start shift never underflows; read-your-write, isolation, removal, "
     "group-wide view. API level (model of add hole / add data / set values, depths, surveys / rename / remove data, group, hole "
     "through workspace or parent / explicit group / re-open): every reachable state has tiled tables and at most one record per id; "
-    "a successful update reads back the values written (all histories); and, for every history without rename (exact side condition, "
+    "a successful update reads back the values written (all histories); and, for every history without rename (a sufficient side condition, "
     "via a 16-clause well-formedness invariant relating index rows, Property keys, records, object ids and group lists): add_data "
     "reads back what was written, any operation on one hole leaves every other hole's data and surveys unchanged, the table of a "
     "data name lists exactly the API values of live holes in order, there is exactly one record per live hole / data set / group and "
@@ -1164,6 +1168,8 @@ def case_term(case, obs):
         return "false"
     if any(o["op"] == "lookup" for o in case["ops"]):
         return None     # a look-up miss inside a changing session (recorded finding): oracle only
+    if any(isinstance(v, (int, float)) and abs(v) > 2 ** 24 for o in case["ops"] + (case.get("copy_ops") or []) for v in (o.get("vals") or [])):
+        return None     # outside the domain of the model (float32 storage is exact up to 2^24): oracle only
     try:
         if not _complete(case["ops"], obs["steps"]):
             return "false"
@@ -1239,6 +1245,17 @@ def _tiling_failures(lab, t):
     return fails
 
 
+def _only_big(a, b):
+    """a and b (nested lists / dicts of values) differ only where the number on one side is beyond 2^24 (float32 storage)"""
+    if isinstance(a, dict) and isinstance(b, dict):
+        return a.keys() == b.keys() and all(_only_big(a[k], b[k]) for k in a)
+    if isinstance(a, list) and isinstance(b, list):
+        return len(a) == len(b) and all(_only_big(x, y) for x, y in zip(a, b))
+    if a == b:
+        return True
+    return any(isinstance(x, (int, float)) and not isinstance(x, bool) and abs(x) > 2 ** 24 for x in (a, b))
+
+
 def _check_snapshot(led, sn, where, fails, readback=True):
     def add(key, what):
         fails.append({"key": key, "what": f"{where}: {what}"})
@@ -1248,7 +1265,9 @@ def _check_snapshot(led, sn, where, fails, readback=True):
         for f in _tiling_failures(lab, t):
             add(f["key"], f["what"])
     # file and memory agree
-    if "mem" in sn and sn["mem"] != sn["tabs"]:
+    if "mem" in sn and sn["mem"] != sn["tabs"] and _only_big(sn["mem"], sn["tabs"]):
+        add("int-values-altered-in-float-label", f"the file holds float32 roundings of values beyond 2^24: {sn['tabs']} vs memory {sn['mem']}")
+    elif "mem" in sn and sn["mem"] != sn["tabs"]:
         add("file-differs-from-memory", f"raw datasets {sn['tabs']} differ from Concatenator.index/data {sn['mem']}")
     # B. stale rows
     for lab, t in sn["tabs"].items():
@@ -1295,7 +1314,13 @@ def _check_snapshot(led, sn, where, fails, readback=True):
             continue
         lab, v = lab_v
         if v != x["vals"]:
-            if d in led.renamed and v is None:
+            big = (v is not None and len(v) == len(x["vals"]) and x.get("kind") == "int"
+                   and any(led.data[o]["name"] == x["name"] and led.data[o].get("kind") == "float" for o in led.data if o != d)
+                   and all(a == b or (isinstance(b, (int, float)) and abs(b) > 2 ** 24) for a, b in zip(v, x["vals"])))
+            if big:
+                add("int-values-altered-in-float-label", f"data {d} ({lab!r}, int32) of hole {x['h']} reads {v}, last written {x['vals']}: "
+                    "the label is shared with float data and kept as float32 on file")
+            elif d in led.renamed and v is None:
                 add("rename-loses-values", f"data {d} (renamed from {label_name(led.renamed[d])!r} to {lab!r}) reads None, last written {x['vals']}")
             else:
                 add("read-back", f"data {d} ({lab!r}) of hole {x['h']} reads {v}, last written {x['vals']}")
@@ -1398,7 +1423,8 @@ def _check_view(led, view, sn, where, fails, stats=None, only=None):
                 stats["tables_equal"] = stats.get("tables_equal", 0) + 1
                 stats["table_rows"] = stats.get("table_rows", 0) + len(exp)
         if cols != [assoc] + names or tab["rows"] != exp:
-            key = "table-view-looks-up-by-name-not-by-group" if mixed else "table-view"
+            key = ("table-view-looks-up-by-name-not-by-group" if mixed
+                   else "int-values-altered-in-float-label" if cols == [assoc] + names and _only_big(tab["rows"], exp) else "table-view")
             fails.append({"key": key, "what": f"{where}: depth_table pg{pname} columns {cols} rows {tab['rows']}; the holes' groups pg{pname} give columns {[assoc] + names} rows {exp}"})
 
 
